@@ -3,6 +3,7 @@ import MindsVerif.Lemmas.SemPlan2
 import MindsVerif.Lemmas.SemPlan3
 import MindsVerif.Lemmas.SemSetOps
 import MindsVerif.Lemmas.SemChain
+import MindsVerif.Lemmas.SemLimit
 /-!
 # C08 — executing a federated plan returns what the original query returns
 
@@ -260,15 +261,14 @@ example : ∃ (w pL pR : Row → Bool), (∀ l r, w (l ++ r) = true → pL l = t
 /-- **C08_partial_model**: the model plan of the transcribed planner returns exactly what the query returns, for ALL
 databases, for every query of the two-table fragment — every join kind (inner, LEFT, LEFT OUTER, RIGHT, FULL), ANY
 WHERE tree (AND / OR / NOT, comparisons, IS NULL), with or without LIMIT — that satisfies the decidable side condition
-`planSound q = limitSound q`:
 
-* LIMIT is not pushed into the first fetch, or the join is a LEFT join and WHERE is absent or a conjunction of tests on
-  the first table only (so it is evaluated completely inside that fetch).
+    `planSound q  =  (plan q).limit0.isNone || q.kind.isLeft`
 
-No condition on outer joins is left: since repo commit 15097fa a filter that accepts NULLs is not pushed to a
-null-supplying side (`Sem.pushedForK`, `C08_regression_isnull*`), and a grouped query never gets the LIMIT pushdown
-(1052add, `C08_useLimit_group_by`).  Each way of violating `limitSound` is inhabited by a witness on which the plan is
-wrong: `C08_witness_limit_inner` (not a LEFT join), `C08_witness_limit_where` (LEFT join, residual WHERE). -/
+i.e. LIMIT is not pushed into the first fetch, or the join is a LEFT join.  Nothing else is left: NULL-accepting filters
+are not pushed to a null-supplying side (15097fa), a grouped query never gets the LIMIT pushdown (1052add), and LIMIT is
+pushed only when WHERE is completely evaluated in the first fetch (f75cd04, `Sem.whereApplied`).  The one remaining
+violation is inhabited: `C08_witness_limit_inner` (LIMIT pushed below a join that is not a LEFT join — pinned by the
+test-suite, KF-C08-7); `C08_limit_inner_sound_if_total` delimits it. -/
 theorem C08_partial_model (q : Q2) (db : DB) (h : planSound q = true) :
     execPlan (plan q) db = evalQuery q db :=
   plan2_sound q db h
@@ -284,11 +284,16 @@ theorem C08_partial_model_inner (q : Q2) (db : DB) (_hk : q.kind = .inner) (hl :
     execPlan (plan q) db = evalQuery q db :=
   C08_partial_model_nolimit q db hl
 
-/-- corollary: LEFT join with LIMIT and a WHERE on the first table only -/
-theorem C08_partial_model_left_limit (q : Q2) (db : DB) (hk : q.kind = .left) (hw : whereLeftOnly q.w = true) :
+/-- corollary: EVERY LEFT / LEFT OUTER join query — any WHERE tree, with or without LIMIT, grouped or not -/
+theorem C08_partial_model_left (q : Q2) (db : DB) (hk : q.kind.isLeft = true) :
     execPlan (plan q) db = evalQuery q db := by
   apply plan2_sound
-  simp [planSound, limitSound, hk, hw, JoinKind.isLeft]
+  simp [planSound, limitSound, hk]
+
+/-- (kept under its old name) LEFT join with LIMIT and a WHERE on the first table only -/
+theorem C08_partial_model_left_limit (q : Q2) (db : DB) (hk : q.kind = .left) (_hw : whereLeftOnly q.w = true) :
+    execPlan (plan q) db = evalQuery q db :=
+  C08_partial_model_left q db (by simp [hk, JoinKind.isLeft])
 
 /-- non-vacuity / coverage of `planSound` (by evaluation): LEFT + WHERE on both tables without LIMIT, LEFT + LIMIT +
 WHERE on the first table, RIGHT and FULL with NULL-rejecting filters, inner with NOT / OR -/
@@ -304,13 +309,63 @@ example : planSound { kind := .full, c0 := 0, c1 := 0, limit := none, w := some 
 example : planSound { kind := .inner, c0 := 0, c1 := 0, limit := none, w := some exW4 } = true := by decide
 /-- the witness queries violate it -/
 example : planSound isnullQ = true ∧ planSound limQ = false := by decide
+example : planSound { kind := .right, c0 := 0, c1 := 0, limit := some 1, w := some exW3 } = true := by decide
 
-/-- LEFT join + LIMIT 1 + a WHERE on the second table: the first left row has no partner with `y = 1` -/
+/-- LEFT join + LIMIT 1 + a WHERE on the second table: the first left row has no partner with `y = 1`.  Before repo
+commit f75cd04 LIMIT 1 went into the first fetch and the plan returned nothing; now LIMIT is not pushed (a conjunct of
+WHERE is evaluated after the join) and plan = query — regression theorems. -/
 def limWhereQ : Q2 := { kind := .left, c0 := 0, c1 := 0, w := some (.cmpC .eq 1 1 (.int 1)), limit := some 1 }
 def limWhereDB : DB := { t0 := [[.int 1, .int 0], [.int 2, .int 0]], t1 := [[.int 2, .int 1]], n0 := 2, n1 := 2 }
 
+theorem C08_regression_limit_where :
+    (plan limWhereQ).limit0 = none ∧ planSound limWhereQ = true ∧
+    execPlan (plan limWhereQ) limWhereDB = evalQuery limWhereQ limWhereDB := by decide
+
+/-- LIMIT is still pushed when WHERE is completely evaluated in the first fetch -/
+theorem C08_limit_pushed_when_where_applied :
+    (plan { kind := .left, c0 := 0, c1 := 0, w := some (.cmpC .eq 0 1 (.int 1)), limit := some 1 }).limit0 = some 1 ∧
+    (plan { kind := .left, c0 := 0, c1 := 0, w := none, limit := some 2 }).limit0 = some 2 := by decide
+
+/-- why f75cd04 was needed (component level): LIMIT below a LEFT join with a residual WHERE -/
 theorem C08_witness_limit_where :
-    planSound limWhereQ = false ∧ execPlan (plan limWhereQ) limWhereDB ≠ evalQuery limWhereQ limWhereDB := by decide
+    ((leftJoin (eqOn 0 0) Prod.mk (nullRow 2) (limWhereDB.t0.take 1) limWhereDB.t1).filter (whereOf limWhereQ.w)).take 1
+      ≠ ((leftJoin (eqOn 0 0) Prod.mk (nullRow 2) limWhereDB.t0 limWhereDB.t1).filter (whereOf limWhereQ.w)).take 1 := by
+  decide
+
+/-! ## delimiting the pinned LIMIT / OFFSET plans (KF-C08-7, KF-C08-10)
+
+`tests/test_planner/test_join_tables.py::test_join_tables_plan_limit_offset` and `::test_join_tables_plan_order_by` pin
+`LIMIT n OFFSET k` inside the fetch of the first table of an INNER join (OFFSET removed from the outer query).  These
+plans are wrong in general (`C08_witness_limit_inner`, `C08_witness_offset_left`) and right exactly in the situations
+below. -/
+
+/-- LIMIT n below an INNER join is sound if the join loses no left row: every left row has at least one partner -/
+theorem C08_limit_inner_sound_if_total {α β γ : Type} (on : α → β → Bool) (mk : α → β → γ) (n : Nat)
+    (L : List α) (R : List β) (h : ∀ l ∈ L, R.filter (on l) ≠ []) :
+    (innerJoin on mk (L.take n) R).take n = (innerJoin on mk L R).take n :=
+  limit_inner_total on mk n L R h
+
+/-- LIMIT n OFFSET k moved into the first fetch below an INNER join is sound if every left row has exactly one partner
+(the join is one-to-one on the left table, e.g. a NOT NULL foreign key to a unique key) -/
+theorem C08_limit_inner_sound_if_one_to_one {α β γ : Type} (on : α → β → Bool) (mk : α → β → γ) (n k : Nat)
+    (L : List α) (R : List β) (h : ∀ l ∈ L, (R.filter (on l)).length = 1) :
+    innerJoin on mk ((L.drop k).take n) R = ((innerJoin on mk L R).drop k).take n :=
+  limit_offset_inner_one on mk n k L R h
+
+/-- … and below a LEFT join if every left row has at most one partner (the right key is unique) -/
+theorem C08_offset_left_sound_if_at_most_one {α β γ : Type} (on : α → β → Bool) (mk : α → β → γ) (nr : β) (n k : Nat)
+    (L : List α) (R : List β) (h : ∀ l ∈ L, (R.filter (on l)).length ≤ 1) :
+    leftJoin on mk nr ((L.drop k).take n) R = ((leftJoin on mk nr L R).drop k).take n :=
+  limit_offset_left_atmost_one on mk nr n k L R h
+
+/-- the hypotheses are satisfiable and not vacuous: ids 1,2 each with exactly one partner -/
+example : ∀ l ∈ ([[.int 1], [.int 2]] : List TRow),
+    (([[.int 2], [.int 1], [.int 3]] : List TRow).filter (eqOn 0 0 l)).length = 1 := by decide
+
+/-- OFFSET 1 moved below a LEFT join whose only left row has two partners: the second joined row is lost (KF-C08-10) -/
+theorem C08_witness_offset_left :
+    leftJoin (eqOn 0 0) Prod.mk (nullRow 1) (([[.int 1]] : List TRow).drop 1) [[.int 1], [.int 1]]
+      ≠ (leftJoin (eqOn 0 0) Prod.mk (nullRow 1) ([[.int 1]] : List TRow) [[.int 1], [.int 1]]).drop 1 := by decide
 
 /-! ## three-table left-deep chains (component level) -/
 
